@@ -120,8 +120,9 @@ def build(read):
                 self.stream() == old(self).stream(),
                 old(self).at() <= self.at() <= self.stream().len(),
                 forall|k: int| old(self).at() <= k < self.at() ==> dropped(old(self).last_token, old(self).stream(), old(self).at(), k), // [C09:only_terminators_at_the_start_or_directly_after_an_operator_comma_dot_or_opening_bracket_or_another_terminator_are_skipped]
-                self.last_token == prev(old(self).last_token, old(self).stream(), old(self).at(), self.at()), // [C09:the_lexer_remembers_the_token_before_the_current_one]"""}}
-    f = extract.annotate_fn(hdr + body, spec=SPEC, attrs="#[verifier::exec_allows_no_decreases_clause]\n#[verifier::loop_isolation(false)]", loops=loops)
+                self.last_token == prev(old(self).last_token, old(self).stream(), old(self).at(), self.at()), // [C09:the_lexer_remembers_the_token_before_the_current_one]
+            decreases self.stream().len() - self.at(), // [C03:withholding_terminators_terminates]"""}}
+    f = extract.annotate_fn(hdr + body, spec=SPEC, attrs="#[verifier::loop_isolation(false)]", loops=loops)
     b.text = assemble([
         "// GENERATED on every run by /verif/verus/lex_next.py from /repo's working tree - do not edit",
         MODEL,
